@@ -11,6 +11,10 @@ it one step.  The recorded primitive sequence, every response and every returned
 what the model produces on the same operation histories and schedule (evaluated inside coqc).
 Search: the same recorded histories are judged by the abstract lock specification in Python
 (linearizability search per lock name + the property's clauses), independent of Coq.
+Time: a clock client lets time pass (1 s ... 10 years) between any two primitives of the others on the file, redis and
+dict backends: the fake redis server's clock is advanced (keys with a time to live expire as in redis), time() as seen
+by file_store and by the client threads moves on; the model's PTick is the identity (C04_time_does_not_unlock), the tie
+compares, the direct oracle reports e.g. "two holders after time passed".  (Keep-alive locks: frozen clock here; C19.)
 Keep-alive backend with its helper process (Props/C04.v: C04_keepalive_failed_is_sticky_against_the_helper, over
 Model/Keepalive.v): in the lock-step runs above the helper is not started; the one operation it can interfere with,
 the holder's fail() = stop the helper ; write the failed stamp, is driven by harness/c19.py's simulation (REAL lock
@@ -51,6 +55,7 @@ EVIDENCE = dict(
     level='proof',
     rule='one case = (backend, operation plans of 2-4 clients over 1-2 lock names, schedule at primitive granularity) -> the real '
          'lock objects run in lock-step; recorded: every primitive with its response, every returned value, the final store; '
+         'a clock client lets 1 s ... 10 years pass between any two primitives (file, redis, dict); '
          'non-trivial = at least two clients touched the same name; distinct = distinct (backend, executed histories, schedule); '
          'plus, for the keep-alive lock with its helper process running: one case = one simulated-clock scenario of harness/c19.py in '
          'which the holder calls fail() (a wake-up of the real monitor loop before / between / after its two primitives), recorded: order '
@@ -64,6 +69,20 @@ BACKENDS = ('file', 'keep', 'redis', 'dict')
 B_COQ = {'file': 'BFile', 'keep': 'BKeep', 'redis': 'BRedis', 'dict': 'BDict'}
 OPS = ('get', 'release', 'fail', 'is_locked', 'is_failed')
 OP_COQ = {'get': 'OGet', 'release': 'ORelease', 'fail': 'OFail', 'is_locked': 'OIsLocked', 'is_failed': 'OIsFailed'}
+# "time passes": operation 'tick:<seconds>' of the clock client (filed under name 0)
+TICKS = (1, 3600, 86400, 2 * 86400, 8 * 86400, 10 * 365 * 86400)
+
+
+def is_tick(op):
+    return op.startswith('tick:')
+
+
+def tick_secs(op):
+    return int(op[5:])
+
+
+def op_coq(op):
+    return '(OTick %s)' % zlit(tick_secs(op)) if is_tick(op) else OP_COQ[op]
 STEP_TIMEOUT = 20.0
 
 IMPORTS = 'From JugV Require Import Model.LockPrims.\nFrom JugV Require Gen.LockConsts.'
@@ -99,6 +118,18 @@ class Interposer:
         if cid is None:
             return None, None
         return w, cid
+
+    def elapsed(self):
+        """seconds the clock client let pass in the active world (the keep-alive backend runs on a frozen clock)"""
+        w = self.world
+        return w.elapsed if w is not None and w.backend != 'keep' else 0
+
+    def client_time(self):
+        """time.time(): for the client threads of the active world the simulated time that passed is added"""
+        t = self.real_time()
+        if getattr(self.tls, 'cid', None) is not None and not getattr(self.tls, 'busy', False):
+            t += self.elapsed()
+        return t
 
     def lock_of(self, w, p):
         if w.lockdir is None or not isinstance(p, str):
@@ -198,8 +229,10 @@ class Interposer:
             (fs, 'exists', self.wrap('exists', fs.exists, c_exists)),
             (fs, 'open', self.wrap('builtin_open', builtins.open, c_bopen)),     # shadows the builtin inside file_store only
             (fs, 'Popen', FakePopen),
-            (fs, 'time', lambda: float(NOW)),
+            (fs, 'time', lambda: float(NOW + ip.elapsed())),
+            (_time, 'time', ip.client_time),
         ]
+        self.real_time = _time.time
         self.orig = {'utime': os.utime, 'stat': os.stat}
         for m, n, v in patches:
             self.saved.append((m, n, getattr(m, n, _MISSING)))
@@ -262,13 +295,19 @@ class Client:
 class World:
     """One run: a backend, the shared store, the clients with their plans."""
 
-    def __init__(self, backend, plans, nnames, root, wild=False):
+    def __init__(self, backend, plans, nnames, root, wild=False, ticks=None):
         self.backend = backend
         self.wild = wild
         self.nnames = nnames
         self.name_ids = {lock_name(i): i for i in range(nnames)}
         self.to_sched = Signal()
         self.clients = [Client(i, p) for i, p in enumerate(plans)]
+        self.elapsed = 0
+        self.ticks = list(ticks or []) if backend != 'keep' else []
+        self.clock = None
+        if self.ticks:      # the clock client: its steps are taken by the scheduler itself (no thread)
+            self.clock = Client(len(self.clients), [('tick:%d' % d, 0) for d in self.ticks])
+            self.clients.append(self.clock)
         self.ghost = {i: ('free',) for i in range(nnames)}
         self.events = []        # (cid, op, name, primdesc, resp, ret-or-None)
         self.sched = []         # cid of every step
@@ -351,6 +390,8 @@ class World:
     # ---- scheduler side ------------------------------------------------------------------------
     def start(self):
         for cl in self.clients:
+            if cl is self.clock:
+                continue
             cl.thread = threading.Thread(target=self.client_main, args=(cl,), daemon=True)
             cl.thread.start()
 
@@ -362,7 +403,8 @@ class World:
             except RuntimeError:
                 pass
         for cl in self.clients:
-            cl.thread.join(timeout=STEP_TIMEOUT)
+            if cl.thread is not None:
+                cl.thread.join(timeout=STEP_TIMEOUT)
         if self.server is not None:
             self.server.hook = None
 
@@ -389,8 +431,23 @@ class World:
         if not self.to_sched.acquire(timeout=STEP_TIMEOUT):
             raise HarnessError('client %d did not reach a primitive or return within %ds' % (cl.cid, STEP_TIMEOUT))
 
+    def tick(self, cid):
+        """time passes: the server clock of the fake redis moves on, so does time() for file_store / the clients"""
+        cl = self.clients[cid]
+        op, n = cl.plan.pop(0)
+        d = tick_secs(op)
+        cl.executed.append((op, n))
+        self.elapsed += d
+        if self.server is not None:
+            self.server.advance(d)
+        self.events.append((cid, op, n, ('tick', d), ('ok', None), ('ret', None)))
+        self.sched.append(cid)
+        return True
+
     def step(self, cid):
         cl = self.clients[cid]
+        if cl is self.clock:
+            return self.tick(cid)
         wf = True
         if cl.inflight is None:
             op, n = cl.plan.pop(0)
@@ -465,9 +522,9 @@ def enc_value(v):
     return -1
 
 
-def run_world(backend, plans, nnames, root, k, chooser, wild=False, max_steps=400):
+def run_world(backend, plans, nnames, root, k, chooser, wild=False, max_steps=400, ticks=None):
     """chooser(step_index, enabled) -> cid.  Returns the finished World."""
-    w = World(backend, plans, nnames, root, wild=wild)
+    w = World(backend, plans, nnames, root, wild=wild, ticks=ticks)
     w.all_wf = True
     IP.world = w
     try:
@@ -526,6 +583,8 @@ def render_prim(w, desc, resp):
 
     def rb(b):
         return 'RB %s' % boollit(b)
+    if kind == 'tick':
+        return 'PTick %s' % zlit(desc[1]), 'RU'
     if kind == 'dict':
         r = canon_ret(resp)
         return 'DOp %s %d' % (OP_COQ[desc[1]], desc[2]), {'T': rb(True), 'F': rb(False), 'U': 'RU', 'E': 'RE', None: 'RE'}[r]
@@ -571,7 +630,7 @@ RET_COQ = {'T': 'Some (OB true)', 'F': 'Some (OB false)', 'U': 'Some OU', 'E': '
 
 
 def render_case(w):
-    hists = listlit([listlit(['(%s, %d)' % (OP_COQ[o], n) for o, n in cl.executed]) for cl in w.clients])
+    hists = listlit([listlit(['(%s, %d)' % (op_coq(o), n) for o, n in cl.executed]) for cl in w.clients])
     tr = []
     for cid, op, n, desc, resp, ret in w.events:
         p, r = render_prim(w, desc, resp)
@@ -595,6 +654,8 @@ def spec_apply(state, op, c):
         return state, ('F' if state == ('free',) else 'T')
     if op == 'is_failed':
         return state, ('T' if state == ('failed',) else 'F')
+    if is_tick(op):
+        return state, 'U'          # time passes: nothing changes
     raise ValueError(op)
 
 
@@ -645,19 +706,32 @@ def clause_violations(w):
         if r == 'E':
             bad.append(('operation raised', '%s() of client %d on %s raised %s' % (op, cid, lock_name(n), ret[1])))
         if op == 'get' and r == 'T':
+            passed = 0
             for j in range(i + 1, len(ev)):
                 c2, op2, n2, _, _, ret2 = ev[j]
+                if is_tick(op2):
+                    passed += tick_secs(op2)
+                    continue
                 if n2 != n:
                     continue
                 if c2 == cid and op2 in ('release', 'fail'):
                     break
+                when = (' after time passed', ' (%d s passed in between)' % passed) if passed else ('', '')
                 if op2 == 'get' and canon_ret(ret2) == 'T':
-                    bad.append(('two holders', 'get() of client %d on %s returned True at step %d while client %d holds it since step %d'
-                                % (c2, lock_name(n), j, cid, i)))
+                    bad.append(('two holders' + when[0], 'get() of client %d on %s returned True at step %d while client %d holds it since step %d%s'
+                                % (c2, lock_name(n), j, cid, i, when[1])))
+                    break
+                if op2 == 'is_locked' and canon_ret(ret2) == 'F':
+                    bad.append(('held lock reported free' + when[0], 'is_locked() of client %d on %s returned False at step %d while client %d '
+                                'holds it since step %d%s' % (c2, lock_name(n), j, cid, i, when[1])))
                     break
         if op == 'fail' and r == 'T':
+            passed = 0
             for j in range(i + 1, len(ev)):
                 c2, op2, n2, _, _, ret2 = ev[j]
+                if is_tick(op2):
+                    passed += tick_secs(op2)
+                    continue
                 if n2 != n:
                     continue
                 if op2 == 'release':
@@ -667,8 +741,10 @@ def clause_violations(w):
                     continue
                 want = {'get': 'F', 'is_locked': 'T', 'is_failed': 'T', 'fail': 'T'}[op2]
                 if r2 != want:
-                    bad.append(('failed lock not sticky', '%s() of client %d on %s returned %s at step %d after fail() returned True at step %d '
-                                'and before any release()' % (op2, c2, lock_name(n), r2, j, i)))
+                    bad.append(('failed lock not sticky' + (' after time passed' if passed else ''),
+                                '%s() of client %d on %s returned %s at step %d after fail() returned True at step %d '
+                                'and before any release()%s' % (op2, c2, lock_name(n), r2, j, i,
+                                                                 ' (%d s passed in between)' % passed if passed else '')))
                     break
         if op == 'release':
             for j in range(i + 1, len(ev)):
@@ -762,9 +838,14 @@ TRIPLES = [
     [[G, R], [G, F], [G, A]], [[G, F, R], [G], [G]], [[G], [G], [G]],
 ]
 QUADS = [[[G, F], [G], [A, R], [G, A]]]        # the scenario of D14: cleanup and a new holder fall into get()'s window
+# (plans, seconds the clock client lets pass): all positions of the time steps between the primitives of the others
+TICKSETS = [
+    ([[G], [G]], [10 * 365 * 86400]), ([[G, L], [L, G]], [2 * 86400]), ([[G, F], [G, A]], [8 * 86400]),
+    ([[G, R], [G]], [8 * 86400]), ([[G, F], [A, R, G]], [10 * 365 * 86400]), ([[G], [L, G]], [3600, 8 * 86400]),
+]
 
 
-def enumerate_schedules(backend, plans, nnames, root, kbase, limit, rng):
+def enumerate_schedules(backend, plans, nnames, root, kbase, limit, rng, ticks=None):
     """all schedules (every schedule exactly once: alternatives to the choices made after the forced prefix
     are queued), at most `limit` runs; the queue is served in random order so that a truncated
     enumeration is a spread-out sample"""
@@ -776,7 +857,7 @@ def enumerate_schedules(backend, plans, nnames, root, kbase, limit, rng):
             truncated = True
             break
         prefix = stack.pop(rng.randrange(len(stack)))
-        w = run_world(backend, plans, nnames, root, kbase + len(runs), fixed_chooser(prefix))
+        w = run_world(backend, plans, nnames, root, kbase + len(runs), fixed_chooser(prefix), ticks=ticks)
         runs.append(w)
         for i in range(len(prefix), len(w.choices)):
             chosen, en = w.choices[i]
@@ -792,6 +873,7 @@ def what_for_tie(w):
 
 def replay_obj(w, plans, extra):
     o = {'backend': w.backend, 'nnames': w.nnames, 'plans': [[list(x) for x in p] for p in plans], 'wild': w.wild,
+         'ticks': list(w.ticks),
          'schedule': list(w.sched),
          'executed': [[list(x) for x in cl.executed] for cl in w.clients],
          'events': [event_json(e) for e in w.events], 'final_store': w.final,
@@ -832,7 +914,9 @@ def judge(ck, w, plans, cases, meta, source):
     ck.count('operations', sum(len(cl.executed) for cl in w.clients))
     ck.count('well-formed' if w.all_wf else 'not-well-formed(tie only)')
     for e in w.events:
-        if e[5] is not None:
+        if is_tick(e[1]):
+            ck.count('time passes:%s' % ('<=1h' if tick_secs(e[1]) <= 3600 else '<=8d' if tick_secs(e[1]) <= 8 * 86400 else '10y'))
+        elif e[5] is not None:
             ck.count('op:%s=%s' % (e[1], canon_ret(e[5])))
     if w.all_wf:
         for what, detail in oracle(w):
@@ -863,6 +947,8 @@ def run(ck):
         'started; fail() against a running helper: one loop body of the helper is atomic and Popen.kill() takes effect before the '
         'holder\'s next primitive (stop_monitor() does not wait() for the helper)',
         'nobody but the modelled clients touches the lock files / keys',
+        'time: the redis server expires keys by its own clock only (harness/fakeredis.py: SET EX/PX, SETEX, EXPIRE, ... against a clock that '
+        'the clock client advances); file and dict locks can depend on time through time() / file_store.time() only',
     ]
     thorough = ck.tier == 'thorough'
     cases, meta = [], []
@@ -886,13 +972,24 @@ def run(ck):
                         ck.count('exhaustive:complete-plan-sets')
                     for w in runs:
                         judge(ck, w, plans, cases, meta, 'exhaustive')
+            # ---- the same with time passing between any two primitives (file, redis, dict)
+            for plans, ticks in TICKSETS:
+                for backend in BACKENDS:
+                    if backend == 'keep':
+                        continue
+                    runs, trunc = enumerate_schedules(backend, plans, 1, root, k, ck.n(30, 4000), ck.rng, ticks=ticks)
+                    k += len(runs) + 1
+                    ck.count('exhaustive:truncated-plan-sets' if trunc else 'exhaustive:complete-plan-sets')
+                    for w in runs:
+                        judge(ck, w, plans, cases, meta, 'exhaustive+time')
             # ---- random plans and schedules
             nrand = ck.n(1500, 30000)
             for i in range(nrand):
                 plans, nnames = gen_plans(ck.rng)
                 backend = BACKENDS[i % 4]
                 wild = ck.rng.random() < 0.12
-                w = run_world(backend, plans, nnames, root, k, random_chooser(ck.rng), wild=wild)
+                ticks = [ck.rng.choice(TICKS) for _ in range(ck.rng.choice([0, 0, 1, 1, 2]))] if backend != 'keep' else None
+                w = run_world(backend, plans, nnames, root, k, random_chooser(ck.rng), wild=wild, ticks=ticks)
                 k += 1
                 judge(ck, w, plans, cases, meta, 'random-wild' if wild else 'random')
                 if i in (3, 10, 17, 100):
@@ -952,10 +1049,13 @@ def replay(obj):
     IP.install()
     try:
         with jugrun.scratch_dir('jugv04r') as root:
-            w = run_world(obj['backend'], plans, obj['nnames'], root, 0, fixed_chooser(obj['schedule']), wild=obj.get('wild', False))
+            w = run_world(obj['backend'], plans, obj['nnames'], root, 0, fixed_chooser(obj['schedule']), wild=obj.get('wild', False),
+                          ticks=obj.get('ticks'))
     finally:
         IP.uninstall()
     print('backend: %s lock; %d clients; plans %s' % (w.backend, len(plans), obj['plans']))
+    if w.ticks:
+        print('client %d is the clock: it lets %s seconds pass' % (w.clock.cid, w.ticks))
     print('schedule (client of every primitive step):', w.sched)
     for i, e in enumerate(w.events):
         j = event_json(e)
